@@ -455,6 +455,14 @@ struct Plan {
     control: bool,
     /// digit positions whose proofs share one signature randomiser
     shared: Vec<usize>,
+    /// (position, i, j): the signature presented at `position` is the combination
+    /// (s1_i, s2_i + (s2_j - s2_i) * (t - i)/(j - i)) of the published signatures on digits i and j, where t
+    /// is the digit scalar placed there (a signature on t only if the two share their first element)
+    extrapolate: Option<(usize, usize, usize)>,
+    /// honest digits for another value; after the challenge is known the response of this digit position
+    /// is moved so that the weighted sum matches the linked value, and its first Schnorr message T is
+    /// recomputed to fit (works only if T does not enter the challenge)
+    post_challenge: Option<usize>,
 }
 
 fn digits_of(lay: &Layout, x: u128) -> (Vec<Scalar>, Vec<usize>) {
@@ -478,7 +486,7 @@ fn plans(c: &Ctx, lay: &Layout) -> Vec<Plan> {
     let top_in = cap.min(TWO63) - 1; // largest in-range value the layout can represent
     let mut v: Vec<Plan> = vec![];
     let mut push = |family: &str, variant: String, d: (Vec<Scalar>, Vec<usize>), val: Scalar, control: bool| {
-        v.push(Plan { family: family.into(), variant, digits: d.0, sig_idx: d.1, v: val, control, shared: vec![] });
+        v.push(Plan { family: family.into(), variant, digits: d.0, sig_idx: d.1, v: val, control, shared: vec![], extrapolate: None, post_challenge: None });
     };
     let all_max = (vec![Scalar::from(lay.u - 1); l], vec![(lay.u - 1) as usize; l]);
     // controls: honest decompositions assembled by the shadow prover
@@ -633,7 +641,44 @@ fn plans(c: &Ctx, lay: &Layout) -> Vec<Plan> {
                 let delta = (target - base) * inv.unwrap();
                 d[a] += delta;
                 d[b] -= delta;
-                v.push(Plan { family: "coordinated-pair-of-invalid-digits".into(), variant: format!("{}/pos{}-{}", tname, a, b), digits: d, sig_idx: i, v: target, control: false, shared: vec![a, b] });
+                v.push(Plan { family: "coordinated-pair-of-invalid-digits".into(), variant: format!("{}/pos{}-{}", tname, a, b), digits: d, sig_idx: i, v: target, control: false, shared: vec![a, b], extrapolate: None, post_challenge: None });
+            }
+        }
+    }
+    // a "combination of the published digit signatures" in the algebraic sense: two published signatures
+    // extrapolated to a digit outside the alphabet
+    {
+        let half = cap / u;
+        let mut k = 0;
+        for (i, j) in [(0usize, 1usize), (lay.u as usize - 2, lay.u as usize - 1), (5 % lay.u as usize, 77 % lay.u as usize)] {
+            if i == j {
+                continue;
+            }
+            // 2^63 (or U^L when the layout is smaller) with the top digit one beyond the alphabet
+            let x = TWO63.min(cap);
+            let (mut d, idx) = digits_of(lay, x % half);
+            d[l - 1] = scalar_u128(x / half);
+            v.push(Plan { family: "signature-extrapolated-from-two-published".into(), variant: format!("top-digit/{}-{}", i, j), digits: d, sig_idx: idx, v: scalar_u128(x), control: false, shared: vec![], extrapolate: Some((l - 1, i, j)), post_challenge: None });
+            // -1 with the lowest digit -1
+            let (mut d, idx) = digits_of(lay, 0);
+            d[0] = -Scalar::one();
+            v.push(Plan { family: "signature-extrapolated-from-two-published".into(), variant: format!("negative-digit/{}-{}", i, j), digits: d, sig_idx: idx, v: -Scalar::one(), control: false, shared: vec![], extrapolate: Some((0, i, j)), post_challenge: None });
+            // control: interpolation that lands on i itself is the published signature
+            if k == 0 {
+                let (d, idx) = digits_of(lay, 3 * u + i as u128);
+                v.push(Plan { family: "signature-extrapolated(control:lands-on-published)".into(), variant: format!("{}-{}", i, j), digits: d, sig_idx: idx, v: scalar_u128(3 * u + i as u128), control: true, shared: vec![], extrapolate: Some((0, i, j)), post_challenge: None });
+            }
+            k += 1;
+        }
+    }
+    // the adaptive prover: honest digits of an in-range value, linked slot out of range, one digit proof
+    // re-fitted after the challenge
+    {
+        let honest_val = (77 * u + 3) % (top_in + 1);
+        for (tname, target) in [("-1", -Scalar::one()), ("2^63", scalar_u128(TWO63)), ("q-2^63", -scalar_u128(TWO63))] {
+            for j in [0usize, l - 1] {
+                let (d, idx) = digits_of(lay, honest_val);
+                v.push(Plan { family: "post-challenge-digit-proof".into(), variant: format!("{}/digit{}", tname, j), digits: d, sig_idx: idx, v: target, control: false, shared: vec![], extrapolate: None, post_challenge: Some(j) });
             }
         }
     }
@@ -669,7 +714,24 @@ fn forge_case<const N: usize>(c: &mut Ctx, m: &'static Merchant, lay: &Layout, p
         let vclass = value_class(&p.v);
         let sig = format!("forger={} value={}", p.family, vclass);
         // commitment phase of the constraint
-        let rp = if p.shared.is_empty() { RangeProver::commit(&mut rng, m, &p.digits, &p.sig_idx) } else { RangeProver::commit_shared(&mut rng, m, &p.digits, &p.sig_idx, &p.shared) };
+        let mut rp = if p.shared.is_empty() { RangeProver::commit(&mut rng, m, &p.digits, &p.sig_idx) } else { RangeProver::commit_shared(&mut rng, m, &p.digits, &p.sig_idx, &p.shared) };
+        if let Some((at, i, j)) = p.extrapolate {
+            let (si, sj) = (m.digit_sigs[i % m.digit_sigs.len()], m.digit_sigs[j % m.digit_sigs.len()]);
+            let t = p.digits[at];
+            let di = Scalar::from(i as u64);
+            let dj = Scalar::from(j as u64);
+            let Some(inv) = Option::<Scalar>::from((dj - di).invert()) else { return c.inconclusive("C13: extrapolation over equal digits") };
+            let s2 = G1Projective::from(si.1) + (G1Projective::from(sj.1) - G1Projective::from(si.1)) * ((t - di) * inv);
+            let forged = (si.0, s2.to_affine());
+            c.count(if si.0 == sj.0 { "published_signatures_sharing_sigma1(pairs seen)" } else { "published_signatures_with_distinct_sigma1(pairs seen)" }, 1);
+            if ps_verify_ref(&m.range_pk, &forged.0, &forged.1, &[t]) && !p.control {
+                c.violation(
+                    &format!("C13 signature-on-non-digit-derivable-from-published {}", sig),
+                    json!({"from_digits": [i, j], "derived_for": hex(&t.to_bytes()), "sigma1": hex(&forged.0.to_compressed()), "sigma2": hex(&forged.1.to_compressed())}),
+                );
+            }
+            rp.digits[at] = crate::shadow::SigProver::commit(&mut rng, &m.range_pk, vec![t], forged, &[None]);
+        }
         // the linked commitment proof over generators the harness chooses
         let h: G1Projective = rand_g1(&mut rng).into();
         let gs: Vec<G1Projective> = (0..N).map(|_| rand_g1(&mut rng).into()).collect();
@@ -701,6 +763,48 @@ fn forge_case<const N: usize>(c: &mut Ctx, m: &'static Merchant, lay: &Layout, p
         if ch2.to_scalar() != cval {
             return c.inconclusive("C13: challenge moved between draft and final constraint (responses are hashed?)");
         }
+        // the adaptive prover re-fits one digit proof to the challenge, up to three times; the constraint is
+        // then judged under the challenge of the transcript it ends up with
+        let (tr, rc, ch, cval) = if let Some(j) = p.post_challenge {
+            let (mut tr, mut rc, mut ch, mut cval) = (tr, rc, ch, cval);
+            for round in 0..3 {
+                // weighted sum of the honest responses is c*represented + cs; the link expects c*v + cs
+                let pw = Scalar::from(lay.u).pow_vartime(&[j as u64, 0, 0, 0]);
+                let Some(inv) = Option::<Scalar>::from(pw.invert()) else { return c.inconclusive("C13: radix power not invertible") };
+                let delta = cval * (p.v - rp.represented()) * inv;
+                let mut r = rp.digits[j].sch.respond(&cval);
+                r.msg[0] += delta;
+                // restore the honest T before re-fitting (t_for depends only on C, c and the responses)
+                rp.digits[j].sch.t = rp.digits[j].sch.t_for(&cval, &r);
+                let mut t2 = lay.template.clone();
+                if let Err(e) = fill_range(&mut t2, &rp, &cval) {
+                    return c.inconclusive(&e);
+                }
+                if let Err(e) = rp.digits[j].fill(&mut t2, &format!("digit_proofs/[{}]", j), &r) {
+                    return c.inconclusive(&e);
+                }
+                let rc2: RangeConstraint = match dec(&t2.bytes) {
+                    Ok(d) => d,
+                    Err(e) => return c.inconclusive(&format!("C13: re-fitted constraint does not decode: {}", e)),
+                };
+                let chn = ChallengeBuilder::new().with(&rc2).with(rparams).with_bytes(link.com_bytes()).with_bytes(link.t_bytes()).finish();
+                let moved = chn.to_scalar() != cval;
+                tr = t2;
+                rc = rc2;
+                ch = chn;
+                let prev = cval;
+                cval = chn.to_scalar();
+                if !moved {
+                    c.count("post_challenge_refit_reached_a_fixed_point", 1);
+                    break;
+                }
+                c.count("post_challenge_refit_moved_the_challenge", 1);
+                let _ = (round, prev);
+            }
+            (tr, rc, ch, cval)
+        } else {
+            (tr, rc, ch, cval)
+        };
         let resp = link.respond(&cval);
         // the link itself must be a proof the library accepts for these generators
         {
